@@ -233,4 +233,16 @@ PROPS['C17']['explanation'] = ('Closed theorems (Properties/C17.v) about the mod
     'KNOWN FINDING K1: end-5 PATCH has no route), which reading wins when a URL has several (oracle: one of the readings; C03 gives the rule), and that the `regex` crate decides name_ok (OciName: the compiled '
     'regex vs name_ok on every string of length <= 6 over a 0 . _ - / A).')
 
+UNIQUE = (' UNIQUENESS OF THE CANONICAL TREE (Proofs/UniqueP.v canonical_unique, closed): two trees that are well-formed, tidy and compressed and store the same (route, info) pairs are equal up to the '
+          'shortcut flags and dirty marks (erase n1 = erase n2), and Display - which does not look at them (debug_erase) - prints them identically. Proof: sibling lists are strictly sorted, so it suffices that the key '
+          'sets agree and matching children store the same routes; parameter keys are read off the first atom of the stored routes (and the tail tells a catch-all from a mid-route wildcard); for literal '
+          'children, if the two trees reached the same routes through keys of different length, the child with the shorter key would have no data, no parameter child and exactly one literal child, i.e. be '
+          'compressible, which the compression invariant excludes.')
+PROPS['C05']['explanation'] += (' THE PRINTING HALF, closed: C05_same_live_templates_print_identical_trees - two histories that leave the same set of live (template, data) pairs print the same tree and hold '
+    'the same tree up to flags and dirty marks.' + UNIQUE)
+_c10 = PROPS['C10']['explanation']
+_cut = _c10.find(' Partial, named: "restores the previous printed tree"')
+PROPS['C10']['explanation'] = (_c10[:_cut] if _cut >= 0 else _c10) + (' C10_insert_then_delete_restores_the_printed_tree: the printed tree (model of Display) and the tree itself up to flags and dirty marks are restored.' + UNIQUE + ' Display/dump equality before and after on the REAL router is compared by the Noop and Roundtrip channels every run.')
+PROPS['C15']['explanation'] += (' C15_canonical_tree_is_unique: the canonical tree of a route set is unique.' + UNIQUE)
+
 NOT_APPLICABLE = {}
